@@ -96,13 +96,18 @@ func newSCIONClientMetrics() *scionClientMetrics {
 	}
 }
 
-func compareIPs(x, y []byte) int {
-	addrX, okX := netip.AddrFromSlice(x)
-	addrY, okY := netip.AddrFromSlice(y)
-	if !okX || !okY {
-		panic("unexpected IP address byte slice")
+// equalsIP reports whether the host address of a received SCION packet, given by
+// its address type and raw bytes, is the IP address ip; an IPv4 address and its
+// IPv4-mapped IPv6 form are the same address. The packet's address is network
+// input: a service address or an address of any other type or length is not an
+// IP address and hence different from ip.
+func equalsIP(addrType slayers.AddrType, rawAddr []byte, ip net.IP) bool {
+	if addrType != slayers.T4Ip && addrType != slayers.T16Ip {
+		return false
 	}
-	return addrX.Unmap().Compare(addrY.Unmap())
+	addrX, okX := netip.AddrFromSlice(rawAddr)
+	addrY, okY := netip.AddrFromSlice(ip)
+	return okX && okY && addrX.Unmap() == addrY.Unmap()
 }
 
 func (c *SCIONClient) InInterleavedMode() bool {
@@ -428,9 +433,9 @@ func (c *SCIONClient) measureClockOffsetSCION(ctx context.Context, mtrcs *scionC
 			return time.Time{}, 0, err
 		}
 		validSrc := scionLayer.SrcIA == remoteAddr.IA &&
-			compareIPs(scionLayer.RawSrcAddr, remoteAddr.Host.IP) == 0
+			equalsIP(scionLayer.SrcAddrType, scionLayer.RawSrcAddr, remoteAddr.Host.IP)
 		validDst := scionLayer.DstIA == localAddr.IA &&
-			compareIPs(scionLayer.RawDstAddr, localAddr.Host.IP) == 0
+			equalsIP(scionLayer.DstAddrType, scionLayer.RawDstAddr, localAddr.Host.IP)
 		if !validSrc || !validDst {
 			err = errUnexpectedPacket
 			if numRetries != maxNumRetries && deadlineIsSet && timebase.Now().Before(deadline) {
